@@ -8,23 +8,23 @@ G = "grid"
 CHECKS = {
  "C01": (G, "exploration", "bounded exhaustive enumeration of (date x site x zone x method) on the real API, judged by an independent reference ephemeris",
          "No call in the enumerated product (every date 1600-2399 x site/zone lattice incl. poles x 9 methods) puts Dhuhr more than 10 s of hour angle from the reference transit; Dhuhr always reported. Exhaustive over the discrete date dimension, lattice over the real-valued ones.",
-         "Trusts the Meeus ch.25 reference ephemeris (self-tested, agrees to 4.2 s) and the stated lattice for lat/lon/gmt/elevation.", "3/C01"),
+         "Trusts the Meeus ch.25 reference ephemeris (self-tested, agrees to 4.2 s) and the stated lattice for lat/lon/gmt/elevation (plus off-lattice sites: fractional coordinates, quarter-hour and real-valued zone offsets).", "3/C01"),
  "C02": (G, "exploration", "bounded exhaustive enumeration of (date x site x weather) with reference-ephemeris altitude oracle and differential weather oracle",
          "Every reported Shurooq/Maghrib on the lattice (|lat|<=60, all dates 1600-2399) has reference altitude -0.833 +- 0.05 deg on the correct side of noon; weather variants move only rise/set-derived times and by < 60 s.",
          "Reference ephemeris; instant placement rule for events crossing local midnight (DESIGN C02); lattice.", "3/C02"),
- "C03": (G, "exploration", "bounded exhaustive enumeration of (date x site x method x angle lattice), altitude oracle + monotone angle chains",
+ "C03": (G, "exploration", "bounded exhaustive enumeration of (date x site x method x angle lattice), altitude oracle + monotone angle chains; plus frontier refinement: the twilight angle at which Fajr/Isha stop existing is bisected to adjacent f64s per (site, date) and every probe and ulp neighbour is judged",
          "Every angle-defined Fajr/Isha/Imsaak on the lattice sits at its configured depression (0.03 deg with the date's declination, 0.5 deg instantaneous); chains over angles 9..21 / 0.5..3 are monotone.",
          "Reference ephemeris; instantaneous clause only for zone offsets <= 4 h; lattice.", "3/C03"),
  "C04": (G, "exploration", "bounded exhaustive enumeration of (date x site x school) with shadow-rule altitude oracle",
          "Every Asr on the lattice (incl. lat = dec days) satisfies arccot(k+tan|lat-dec|) within 0.03 deg, lies strictly between Dhuhr and Maghrib, Hanafi strictly after Shafi.",
          "Reference declination at 0 h local; lattice.", "3/C04"),
- "C05": (G, "exploration", "bounded exhaustive enumeration of (date x site x method x rounding) with order-chain oracle",
+ "C05": (G, "exploration", "bounded exhaustive enumeration of (date x site x method x rounding) with order-chain oracle; plus the twilight-angle frontier bisected to adjacent f64s",
          "Every call on the lattice returns exactly the seven keys, unflagged, in strict cyclic order around Dhuhr, for all 4 rounding modes.",
          "Order measured as cyclic offset from the same call's Dhuhr; lattice.", "3/C05"),
- "C06": (G, "exploration", "bounded exhaustive enumeration of (date x site up to +-89.5 x method) against the Sun's daily altitude extremes",
+ "C06": (G, "exploration", "bounded exhaustive enumeration of (date x site up to +-89.5 x method, custom angle triples, caller weather) against the Sun's daily altitude extremes",
          "On the lattice a time is Invalid iff the defining altitude lies outside the Sun's altitude range of that date (0.05 deg exemption band as stated).",
          "Reference declination; exemption band; lattice.", "3/C06"),
- "C07": (G, "fault_enumeration", "bounded exhaustive enumeration of the crash surface (site x date x method x 27 policies x rounding x deviation sets, iterated by deviation count) under catch_unwind and a watchdog",
+ "C07": (G, "fault_enumeration", "bounded exhaustive enumeration of the crash surface (site x date x method x 27 policies x rounding x deviation sets, iterated by deviation count) under catch_unwind and a watchdog; plus the midnight frontier of every minute-offset key (hour crossing -24/0/24/48) bisected to adjacent f64s, +-64 ulp, 4 rounding modes",
          "No call in the enumerated product (poles to equator, all policies incl. nearest latitude -90..90, all roundings, 0/1/2 parameter deviations to the edges of the stated ranges) panics, hangs (> 5 s) or returns other than 7 entries.",
          "Deviation alphabet and date subset are finite samples of the stated ranges chosen at their edges; hang = no result within 5 s.", "3/C07"),
  "C08": (G, "exploration", "bounded exhaustive differential enumeration: every (site, date, method, policy) against the conventional result of the same call",
@@ -36,10 +36,10 @@ CHECKS = {
  "C10": (G, "exploration", "bounded exhaustive enumeration of (site, date, method/intervals, policy, substitute latitude) against formula oracles",
          "On the lattice every nearest-latitude / seventh / angle-based / minutes result equals its stated formula evaluated from the conventional Shurooq/Maghrib (or the conventional result at the substitute latitude) within 3 s and is flagged.",
          "Formulas on whole seconds; substitute-latitude times that do not exist are not judged.", "3/C10"),
- "C11": (G, "exploration", "exhaustive enumeration of every clock second (offset sweep -90000..90000 s) x 7 prayers x 4 modes against an integer rounding table",
+ "C11": (G, "exploration", "exhaustive enumeration of every clock second (offset sweep -90000..90000 s; -3..+3 days strided with dense windows at each multiple of 24 h; midnight frontier bisected to adjacent f64s) x 7 prayers x 4 modes against an integer rounding table",
          "For every unrounded second of the day (incl. negative and >= 24 h intermediate hours) each mode's output is the table value; validity and flags unaffected; moves < 60 s.",
          "Unrounded h:m:s read from the library's own None mode and bound separately to base + offset.", "3/C11"),
- "C12": (G, "exploration", "bounded exhaustive enumeration of call pairs differing in exactly one parameter",
+ "C12": (G, "exploration", "bounded exhaustive enumeration of call pairs differing in exactly one parameter, iterated by deviation count (bases at the method defaults, then bases deviating in one parameter)",
          "On the lattice every single-parameter perturbation (42 offsets, 12 intervals, school, +-1 deg angles, 5 weather points) moves exactly the documented entries by exactly the documented amount and nothing else.",
          "Angle/school/weather locality under the default policy only on fallback-free dates.", "3/C12"),
  "C13": (G, "exploration", "exhaustive enumeration of every run of three consecutive dates 1600-2399 per site/method",
@@ -47,22 +47,22 @@ CHECKS = {
          "Differences on truncated seconds; lattice.", "3/C13"),
  "C14": (G, "exploration", "exhaustive enumeration of (start, span -400..2000, k 0..64) against a set-of-days model; range API vs per-day API",
          "num_days, partition and the range API agree with the set-of-days model for every enumerated range incl. reversed, empty and single-day ones.",
-         "6 start dates; range API compared on a span subset.", "3/C14"),
+         "8 start dates incl. 1582-09-20 and 0001-01-01; range API compared on a span subset; block form compared with the sequential form for spans <= 400.", "3/C14"),
  "C15": ("sched", "model_checking", "stateless model checking of the real code under a controlled scheduler (exhaustive / preemption-bounded DFS over shuttle scheduling points) + explicit-state protocol model (stateright BFS) bound to the code by replaying every model trace on it and walking every code trace through the model",
-         "Every schedule of the real parallel range API for <= 3 partitions (unbounded DFS) and all schedules within the stated preemption bound for 3-6 partitions return exactly the sequential map and terminate; all reachable states of the protocol model for 1-7 partitions satisfy no-loss/no-duplicate/termination; every complete model trace for <= 3 partitions (and the bounded ones above) replays on the code event for event; 14k-60k (workers, days, threshold) configurations agree with the sequential result on real threads.",
+         "Every schedule of the real parallel range API for <= 3 partitions (unbounded DFS) and all schedules within the stated preemption bound for 3-6 partitions return exactly the sequential map and terminate; all reachable states of the protocol model for 1-7 partitions satisfy no-loss/no-duplicate/termination; every complete model trace for <= 3 partitions (and the bounded ones above) replays on the code event for event; 15k-65k (workers, days, threshold) configurations over four data scenarios (incl. a high-latitude fall-back season and a range across 1582-10-15) agree with the sequential result on real threads.",
          "shuttle's channel/scoped-thread semantics stand in for std's (sequentially consistent); scheduling points = wrapped operations (+ after spawn / before sender drop).", "3/C15"),
- "C16": (G, "exploration", "exhaustive enumeration of a 0.25/0.5 deg lat/lon grid plus special meridians/parallels against an independent 3-D vector bearing",
+ "C16": (G, "exploration", "exhaustive enumeration of a 0.25/0.125 deg lat/lon grid plus special meridians/parallels (approached geometrically, 10^-2..10^-12 deg) against an independent 3-D vector bearing",
          "Every grid point agrees with the vector bearing within 1e-6 deg, lies in (-180,180], label/text agree with the sign, elevation-independent.",
          "Spherical Earth; library's Kaaba constants.", "3/C16"),
- "C17": (G, "exploration", "exhaustive enumeration of the complete input space (3 652 059 dates) against an integer tabular calendar",
-         "Every date 0001-01-01..9999-12-31 maps to the arithmetic Islamic calendar date, correct weekday, successive days, no panic.",
+ "C17": (G, "exploration", "exhaustive enumeration of the complete input space (3 652 059 dates) in five orders (ascending, descending, strided permutations) plus all ordered pairs/triples over a month-boundary alphabet, against an integer tabular calendar",
+         "Every date 0001-01-01..9999-12-31 maps to the arithmetic Islamic calendar date, correct weekday, successive days, no panic - whatever was converted before it on the same thread (five sweep orders, every ordered pair/triple of the month-boundary alphabet).",
          "Reference = Calendrical Calculations arithmetic Islamic calendar (self-tested on its sample data).", "3/C17"),
- "C18": (G, "exploration", "exhaustive enumeration of an f64 bit-pattern alphabet x 6 types x 3 construction routes + composite documents",
+ "C18": (G, "exploration", "exhaustive enumeration of an f64 bit-pattern alphabet x 6 types x 3 construction routes + every text of length <= 5 (thorough 6) over a 12-character number-grammar alphabet + composite documents",
          "All three routes accept exactly the finite in-range values for every pattern of the alphabet, read back bit-identical, never panic, and agree; composite documents reject any out-of-range embedded quantity.",
          "The f64 a text denotes is std's / serde_json's own reading.", "3/C18"),
- "C19": (G, "exploration", "exhaustive enumeration of a product of command-line alphabets, each as a 5-run sequence of the real binary, judged against the library",
+ "C19": (G, "exploration", "exhaustive enumeration of a product of command-line alphabets, each as an 8-run sequence of the real binary, judged against the library; rejected lines and parameter files; the clock-dependent date defaults under three TZ answers for today",
          "For every enumerated command line the JSON output decodes to the library result, the parameter file reproduces byte-identical output, the listing matches, and every invalid line is rejected with non-zero exit and no files.",
-         "Explicit dates only; binary built from /repo's working tree.", "3/C19"),
+         "Binary built from /repo's working tree; the clock is owned through TZ (expected today = UTC now + zone offset, bracketed before/after each run).", "3/C19"),
  "C20": (G, "exploration", "bounded exhaustive enumeration of call pairs (GMT shift, meridian+GMT shift) per site/date/method",
          "No pair on the lattice (|lat| <= 45, |d| <= 1 h, zone offsets <= 3 h) differs by more than 10 s or changes validity.",
          "Zone offsets within 3 h of lon/15 so both calls report the same physical events.", "3/C20"),
@@ -111,7 +111,7 @@ manifest = {
     ],
     "checks": checks,
     "not_applicable": not_app,
-    "notes": "Exit codes: 0 held, 1 violation (VIOLATION line), >=2 machinery failure. Known findings: /verif/KNOWN_FINDINGS.txt (currently only fixed: lines - nine repaired defects). Seeded detection demonstrations: /verif/seeded/ (177 property-breaking changes); false-alarm probes: /verif/refactorings/ (16 behaviour-preserving refactorings).",
+    "notes": "Exit codes: 0 held, 1 violation (VIOLATION line), >=2 machinery failure. Known findings: /verif/KNOWN_FINDINGS.txt (currently only fixed: lines - nine repaired defects). Seeded detection demonstrations: /verif/seeded/ (217 property-breaking changes in six rounds); false-alarm probes: /verif/refactorings/ (16 behaviour-preserving refactorings).",
 }
 json.dump(manifest, open(os.path.join(V, "MANIFEST.json"), "w"), indent=1)
 print("wrote MANIFEST.json with", len(checks), "checks;", len(not_app), "not yet claimed")
